@@ -356,13 +356,68 @@ func scenarios() []e3.Scenario {
 			})
 		}
 	}
+	// SECS-I: the application sends while the peer drops the line. Wherever the send's steps fall
+	// relative to the line engine noticing the drop and the supervisor acting on it, the call returns
+	// and Close afterwards finds nothing left.
+	for _, active := range []bool{false, true} {
+		active := active
+		role := map[bool]string{true: "active", false: "passive"}[active]
+		var n *e2s1.Node
+		var sendErr error
+		out = append(out, e3.Scenario{
+			Name: "secs1-" + role + "-send-vs-drop", Horizon: 60 * time.Second,
+			Policies: []string{vsched.Sticky, ""}, Focus: "~1app",
+			Setup: func(e *e3.Env) {
+				sendErr = nil
+				n = e2s1.New(e.W, e2s1.Opts{Active: active, Equip: true, Device: 1, Retry: 1, T1: 100 * time.Millisecond, T2: 300 * time.Millisecond,
+					Conn: []hsms.ConnOption{hsms.WithT5(time.Second), hsms.WithCloseTimeout(5 * time.Second), hsms.WithReconnectBackoff(time.Hour, 1)}})
+				if err := n.Open(); err != nil {
+					panic(err)
+				}
+				var pc *sim.Conn
+				if active {
+					pc = e.W.Net.TakePeer()
+				} else {
+					pc = e.W.Net.Connect()
+				}
+				if pc == nil {
+					panic("c10s: no SECS-I link")
+				}
+				e.W.Settle()
+				e.Thread("1app", func() {
+					ctx, cancel := context.WithTimeout(context.Background(), 2*time.Second)
+					defer cancel()
+					_, sendErr = n.C.SendDataMessage(ctx, 1, 1, false, secs2.A("x"))
+				})
+				e.Thread("2peer", func() { _ = pc.Close() })
+			},
+			Finish: func(e *e3.Env) {
+				e.Note("sendErr=%v", sendErr != nil)
+				w := e.W
+				if err := n.C.Close(); err != nil {
+					e.Violate("final-close-error", "final Close returned %v", err)
+				}
+				w.Settle()
+				if c, l := w.Net.Unclosed(); c != 0 || l != 0 {
+					e.Violate("socket-leak", "%d sockets and %d listeners handed to the library were never closed", c, l)
+				}
+				if gs := e2.LibGoroutines(); len(gs) > 0 {
+					s := strings.Join(gs, "\n")
+					if len(s) > 900 {
+						s = s[:900]
+					}
+					e.Violate("goroutine-leak", "%d library goroutines alive after the final Close: %s", len(gs), s)
+				}
+			},
+		})
+	}
 	return out
 }
 
 func TestCheck(t *testing.T) {
 	vfw.Main(t, "C10", func(c *vfw.Ctx) {
 		c.Level("model_checking")
-		c.Rule("E3: every schedule with <= B departures (quick 1, thorough 2) of {Close, Close, peer drop}, {Open, Close, SendDataMessage} on a Selected connection (active and passive) and {peer connect, Close} on a listening one, on the real instrumented library; oracle: no deadlock (all calls return before the virtual horizon), documented return values, then final Close -> NotConnected, no dial for 12 s, every socket/listener closed, no library goroutine")
+		c.Rule("E3: every schedule with <= B departures (quick 1, thorough 2) of {Close, Close, peer drop}, {Open, Close, SendDataMessage} on a Selected connection (active and passive) and {peer connect, Close} on a listening one, and (SECS-I, <= 2 sticky departures that involve the application thread) {SendDataMessage, peer drop}, on the real instrumented library; oracle: no deadlock (all calls return before the virtual horizon), documented return values, then final Close -> NotConnected, no dial for 12 s, every socket/listener closed, no library goroutine")
 		c.Assume("instrumenter rule set", "testing/synctest", "sim network")
 		if c.Replay != nil {
 			var r e3.Replay
@@ -390,6 +445,9 @@ func TestCheck(t *testing.T) {
 			// Close/Close and Open/Close/Send overlaps stay at one (cost: ~50 k executions each at two)
 			if b > 1 && !strings.Contains(sc.Name, "drop-reconnect-vs-close") && !strings.Contains(sc.Name, "accept-vs-close") {
 				b = 1
+			}
+			if strings.HasSuffix(sc.Name, "-send-vs-drop") {
+				b = 2 // focused on the application thread: two sticky departures in both tiers
 			}
 			st := e3.Explore(c, t, sc, b)
 			c.Add("e3_executions", int64(st.Execs))
